@@ -1180,6 +1180,39 @@ def end_loop_findings(f, join_sites=()):
                 ids = set(id(x) for e_ in exprs for x in walk(e_))
                 if any(id(c) in ids for c in join_cmps):
                     tied_j = True
+            # the scan behind that comparison covers THIS build's entries: where the entries are enumerated by an index range,
+            # both bounds are jump-table lengths (the length when the build started, the length now) - an offset range
+            # (`0 .. len - start`) looks at an earlier program's entries once the data object is shared
+            for rc in walk(f["hir"]):
+                if rc.get("k") not in ("Call", "MethodCall") or last(callee(rc) or rc.get("m") or "") != "make_size_iterator_range":
+                    continue
+                scope_ = None
+                for mc in walk(f["hir"]):
+                    if mc.get("k") == "MethodCall" and any(x is rc for x in walk(mc.get("recv") or {})) and any(id(c) in set(id(y) for a_ in mc.get("args", []) for y in walk(a_)) for c in join_cmps):
+                        scope_ = mc
+                if scope_ is None:
+                    continue
+                for a_ in call_args(rc)[-2:]:
+                    exprs_ = [a_]
+                    seen_ = set()
+                    work_ = [x["lid"] for x in walk(a_) if x.get("k") == "Path" and x.get("res") == "local"]
+                    while work_:
+                        l_ = work_.pop()
+                        if l_ in seen_:
+                            continue
+                        seen_.add(l_)
+                        for d_ in body_of.defs.get(l_, []):
+                            if isinstance(d_, dict) and d_.get("k") not in ("Param", "ClosureParam", "Destructure", "Field"):
+                                exprs_.append(d_)
+                                work_.extend(x["lid"] for x in walk(d_) if x.get("k") == "Path" and x.get("res") == "local")
+                    arith = any(x.get("k") == "Binary" for e_ in exprs_ for x in walk(e_))
+                    lens = any(x.get("k") == "MethodCall" and x.get("m") == "get_jump_table_len" for e_ in exprs_ for x in walk(e_))
+                    # a bound handed in by the caller (the loop extracted into a helper) is the caller's business
+                    if not lens and any(d_.get("k") in ("Param", "ClosureParam") for l_ in seen_ for d_ in body_of.defs.get(l_, []) if isinstance(d_, dict)):
+                        lens = True
+                    if arith or not lens:
+                        fnd.append(("join-scan-range", loc(rc), "the scan for a join point at %s enumerates jump-table indices over a range whose bound is %s: it must run from the jump-table length at the start of this build to the length now - an offset range visits an earlier program's entries when the data object already holds some, misses this build's join entry, and the branch of `5 ?> 6 |> ;;` built second loops forever" % (loc(rc), "computed with arithmetic" if arith else "not a jump-table length")))
+                        break
             if not tied_j:
                 fnd.append(("skip-ignores-join-point", loc(loops[0][0]), "an end instruction is skipped because the root already ends with it, although %d site(s) of the builder (%s) record 'the next instruction' as a jump-table entry: when such a join point is the position after the root's last instruction - `a ?> b |> ;;` - nothing is emitted there, the entry aliases the start of the next root and the branch jumps back into itself. No comparison of a jump-table entry with the instruction length controls the skip" % (len(join_sites), ", ".join(join_sites[:4]))))
         if not tied:
